@@ -47,6 +47,8 @@ fn main() {
       std::process::exit(rep.exit);
     }
     "worker" => {
+      // a worker must not outlive its driver (a killed driver would otherwise leave spinning workers behind)
+      unsafe { libc::prctl(libc::PR_SET_PDEATHSIG, libc::SIGKILL); }
       let pid = &args[2];
       let prop = props::get(pid).expect("unknown property");
       let tier = Tier::parse(arg(&args, "--tier").unwrap());
